@@ -56,3 +56,83 @@ pub fn arb_valid_ns() -> SBoxedStrategy<u32> {
     ]
     .sboxed()
 }
+
+/// Years: full i32, human range, extremes, century / 400 / 4 multiples and their neighbours, the 1970 seam.
+pub fn arb_year() -> SBoxedStrategy<i32> {
+    prop_oneof![
+        2 => any::<i32>(),
+        3 => -3000i32..4000,
+        2 => (proptest::sample::select(vec![i32::MIN, i32::MAX, 0, 1, -1, 1600, 1900, 1968, 1969, 1970, 1971, 1972, 2000, 2100, 2400, -400, -100, -4]), -4i32..=4).prop_map(|(y, d)| y.saturating_add(d)),
+        2 => (-5368708i32..5368708, proptest::sample::select(vec![0i32, 100, 200, 300, 4, 96, 104, 399, 1]), -1i32..=1).prop_map(|(k, r, d)| k.saturating_mul(400).saturating_add(r).saturating_add(d)),
+    ]
+    .sboxed()
+}
+
+#[derive(Debug, Clone, Copy, PartialEq, Eq, Hash, serde::Serialize, serde::Deserialize)]
+pub struct Fields {
+    pub y: i32,
+    pub mo: u8,
+    pub d: u8,
+    pub h: u8,
+    pub mi: u8,
+    pub s: u8,
+    pub ns: u32,
+}
+
+impl Fields {
+    pub fn valid(&self) -> bool {
+        (1..=12).contains(&self.mo) && self.d >= 1 && (self.d as i64) <= cal::days_in_month(self.y as i64, self.mo as i64) && self.h < 24 && self.mi < 60 && self.s <= 60 && self.ns < 1_000_000_000
+    }
+    /// civil second count (second 60 = next minute's second 0)
+    pub fn civil_secs(&self) -> i128 {
+        cal::unix_from_civil(self.y as i64, self.mo as i64, self.d as i64, self.h as i64, self.mi as i64, self.s as i64)
+    }
+    pub fn from_civil(c: &cal::Civil, ns: u32) -> Option<Fields> {
+        Some(Fields { y: i32::try_from(c.y).ok()?, mo: c.mo as u8, d: c.d as u8, h: c.h as u8, mi: c.mi as u8, s: c.s as u8, ns })
+    }
+}
+
+/// Valid-by-construction civil fields (second 60 included with weight).
+pub fn arb_valid_fields() -> SBoxedStrategy<Fields> {
+    (arb_year(), 1u8..=12, any::<u32>(), prop_oneof![3 => 0u32..86400, 1 => Just(86399u32), 1 => Just(0u32)], prop_oneof![5 => Just(false), 1 => Just(true)], arb_valid_ns())
+        .prop_map(|(y, mo, dd, sod, leap60, ns)| {
+            let dim = cal::days_in_month(y as i64, mo as i64) as usize;
+            // bias to month ends / starts
+            let d = match dd % 8 {
+                0 => dim,
+                1 => 1,
+                2 => dim.saturating_sub(1).max(1),
+                _ => crate::run::idx(dd, dim) + 1,
+            } as u8;
+            let (h, mi, mut s) = ((sod / 3600) as u8, ((sod / 60) % 60) as u8, (sod % 60) as u8);
+            if leap60 {
+                s = 60;
+            }
+            Fields { y, mo, d, h, mi, s, ns }
+        })
+        .sboxed()
+}
+
+/// Arbitrary (mostly invalid in exactly one field) civil fields.
+pub fn arb_fields_perturbed() -> SBoxedStrategy<Fields> {
+    (arb_valid_fields(), 0u8..8, any::<u8>(), any::<u32>())
+        .prop_map(|(mut f, which, b, w)| {
+            match which {
+                0 => f.mo = [0u8, 13, 255, b][(b % 4) as usize],
+                1 => f.d = [0u8, 32, 255, 31, 30, 29, b][(b % 7) as usize],
+                2 => f.h = [24u8, 25, 255, b][(b % 4) as usize],
+                3 => f.mi = [60u8, 61, 255, b][(b % 4) as usize],
+                4 => f.s = [61u8, 62, 255, 60, b][(b % 5) as usize],
+                5 => f.ns = [1_000_000_000u32, u32::MAX, 999_999_999, w][(b % 4) as usize],
+                6 => {
+                    f.mo = 2;
+                    f.d = [28u8, 29, 30][(b % 3) as usize];
+                }
+                _ => {
+                    f.d = 31;
+                }
+            }
+            f
+        })
+        .sboxed()
+}
